@@ -167,7 +167,7 @@ def run_asutpm(c):
         for eshape in [(), (2,), (2, 2)]:
             for cplx in (False, True):
                 for (D, P) in DPS[1:3]:
-                    for container in ('list', 'objarray'):
+                    for container in ('list', 'objarray', 'objarray.T', 'objarray.F'):
                         for fn_name in ('as_utpm', 'ndarray2utpm'):
                             sub = '%s|%s|%s' % (fn_name, container, 'complex' if cplx else 'real')
                             c.ev(True)
@@ -177,10 +177,22 @@ def run_asutpm(c):
                                 cont = np.empty(n, dtype=object)
                                 cont[:] = elems
                                 cont = cont.reshape(cshape).tolist()
-                            else:
+                            elif container == 'objarray':
                                 cont = np.empty(n, dtype=object)
                                 cont[:] = elems
                                 cont = cont.reshape(cshape)
+                            elif container == 'objarray.T':
+                                # the same logical container presented as a transposed view of a C-ordered object array
+                                tmp = np.empty(n, dtype=object)
+                                tmp[:] = elems
+                                tmp = tmp.reshape(cshape)
+                                back = np.empty(cshape[::-1], dtype=object)
+                                back[...] = tmp.T
+                                cont = back.T
+                            else:
+                                tmp = np.empty(n, dtype=object)
+                                tmp[:] = elems
+                                cont = np.asfortranarray(tmp.reshape(cshape))
                             try:
                                 y = UTPM.as_utpm(cont) if fn_name == 'as_utpm' else AU.ndarray2utpm(cont)
                                 if fn_name == 'ndarray2utpm' and eshape != ():
@@ -239,6 +251,15 @@ def run_shift(c):
                         c.fail('shift', 'roundtrip', {'s': s, 'D': D})
                     if not np.array_equal(x.data, vals((D, P) + shape, 4)):
                         c.fail('shift', 'argument modified', {'s': s})
+                    # out= forms: a separate buffer holding stale data, and the polynomial itself
+                    buf = UTPM(np.zeros(x.data.shape))
+                    r = x.shift(s, out=buf)
+                    if not (r is buf and same(buf.data, ref)):
+                        c.fail('shift', 'out=separate buffer', {'s': s, 'D': D})
+                    xx = UTPM(x.data.copy())
+                    xx.shift(s, out=xx)
+                    if not same(xx.data[:D + min(s, 0)] if s <= 0 else xx.data[s:], ref[:D + min(s, 0)] if s <= 0 else ref[s:]):
+                        c.fail('shift', 'out=self (retained part)', {'s': s, 'D': D})
                 except Exception as e:
                     c.fail('shift', 'raises s%s0' % ('=' if s == 0 else ('<' if s < 0 else '>')), {'error': str(e)[:200], 's': s, 'D': D})
 
